@@ -1,0 +1,95 @@
+//go:build verif
+
+package kafka
+
+// Add-only export file for the verification harness in /verif (property C05:
+// record batches / message sets).  Nothing here is compiled into normal builds.
+
+import (
+	"bufio"
+	"bytes"
+	"errors"
+	"fmt"
+	"time"
+)
+
+// VerifProduceRequest renders the produce request that
+// (*Conn).writeCompressedMessages sends for the negotiated produce version
+// (2, 3 or 7), with the very calls conn.go makes, on a writeBuffer over a
+// bytes.Buffer.  Correlation id 1, client id "c", topic "t", partition 0,
+// timeout one second, required acks -1, no transactional id.
+func VerifProduceRequest(version int, codec CompressionCodec, msgs ...Message) ([]byte, error) {
+	out := &bytes.Buffer{}
+	wb := &writeBuffer{w: out}
+	switch version {
+	case 2:
+		if err := wb.writeProduceRequestV2(codec, 1, "c", "t", 0, time.Second, -1, msgs...); err != nil {
+			return nil, err
+		}
+	case 3:
+		batch, err := newRecordBatch(codec, msgs...)
+		if err != nil {
+			return nil, err
+		}
+		if err := wb.writeProduceRequestV3(1, "c", "t", 0, time.Second, -1, nil, batch); err != nil {
+			return nil, err
+		}
+	case 7:
+		batch, err := newRecordBatch(codec, msgs...)
+		if err != nil {
+			return nil, err
+		}
+		if err := wb.writeProduceRequestV7(1, "c", "t", 0, time.Second, -1, nil, batch); err != nil {
+			return nil, err
+		}
+	default:
+		return nil, fmt.Errorf("verif: unsupported produce version %d", version)
+	}
+	return out.Bytes(), nil
+}
+
+// verifMaxMessages bounds the read loop of VerifReadMessageSet.
+const verifMaxMessages = 100000
+
+// ErrVerifLoop is returned by VerifReadMessageSet when the batch keeps
+// yielding messages beyond any count the input could contain.
+var ErrVerifLoop = errors.New("verif: batch did not terminate")
+
+// VerifReadMessageSet reads the message set b (without its leading int32 size)
+// the way a Batch returned by (*Conn).ReadBatchWith does for fetch offset min:
+// same construction of the messageSetReader and of the Batch (no connection,
+// no lock, zero deadline), then ReadMessage until it fails.  The messages read
+// and the error that ended the loop are returned.
+func VerifReadMessageSet(b []byte, min int64) ([]Message, error) {
+	var adjustedDeadline time.Time
+
+	msgs, err := newMessageSetReader(bufio.NewReader(bytes.NewReader(b)), len(b))
+	if errors.Is(err, errShortRead) {
+		err = checkTimeoutErr(adjustedDeadline)
+	}
+
+	batch := &Batch{
+		msgs:      msgs,
+		deadline:  adjustedDeadline,
+		topic:     "t",
+		partition: 0,
+		offset:    min,
+		err:       dontExpectEOF(err),
+	}
+	defer batch.Close()
+
+	var out []Message
+	for {
+		msg, err := batch.ReadMessage()
+		if err != nil {
+			return out, err
+		}
+		out = append(out, msg)
+		if len(out) > verifMaxMessages {
+			return out, ErrVerifLoop
+		}
+	}
+}
+
+// VerifIsShortRead tells whether err is the package's errShortRead.
+func VerifIsShortRead(err error) bool { return errors.Is(err, errShortRead) }
